@@ -26,6 +26,17 @@ def prepPool (classes : List ClassSpec) (id : Nat) (inst : Val) (v : Val) : Val 
   | 7, .sc .none => .sc (.int 0)
   | _, _ => v
 
+/-- validators of the validated types of the harness (`sc_values.VALIDATORS`) -/
+def predPool (id : Nat) (v : Val) : Bool :=
+  match id, v with
+  | 0, .sc (.int n) => 0 ≤ n                       -- bounded(int, ge=0)
+  | 0, .sc (.bool _) => true
+  | 1, .sc (.int n) => 0 < n && n ≤ 10             -- bounded(int, gt=0, le=10)
+  | 1, .sc (.bool b) => b
+  | 2, .sc (.str s) => s != 999                    -- validated(non-empty str)
+  | 3, .sc (.int n) => n % 2 == 0                  -- validated(even int, not bool)
+  | _, _ => false
+
 inductive TrTok
   | inc | dbl | neg | up | idt | cst (v : Val) | app (v : Val)
 
@@ -116,6 +127,7 @@ partial def pTy : P Ty
   | "set" :: r => do let (a, r) ← pTy r; pure (.set a, r)
   | "dict" :: r => do let (a, r) ← pTy r; let (b, r) ← pTy r; pure (.dict a b, r)
   | "spec" :: r => do let (c, r) ← pNat r; pure (.spec c, r)
+  | "valid" :: r => do let (p, r) ← pNat r; let (b, r) ← pTy r; pure (.valid b p, r)
   | _ => none
 
 def pTr : P (Option TrTok)
@@ -154,8 +166,10 @@ partial def pAttrs : Nat → P (List AttrSpec)
   | k+1, r => do
       let (name, r) ← pNat r; let (ty, r) ← pTy r; let (d, r) ← pOptVal r
       let (p, r) ← pOptNat r; let (ip, r) ← pOptNat r; let (ca, r) ← pOptVal r
+      let (ni, r) ← pNat r; let (inv, r) ← pNats ni r
       let (as, r) ← pAttrs k r
-      pure ({ name := name, ty := ty, default := d, prep := p, itemPrep := ip, classAttr := ca } :: as, r)
+      pure ({ name := name, ty := ty, default := d, prep := p, itemPrep := ip, classAttr := ca,
+              invalidatedBy := inv } :: as, r)
 
 def pClass : P ClassSpec := fun r => do
   let (id, r) ← pNat r; let (key, r) ← pOptNat r
@@ -195,7 +209,7 @@ end
 /-! ### the loop -/
 
 structure St where
-  env : Env := { classes := [], prep := prepPool [] }
+  env : Env := { classes := [], prep := prepPool [], pred := predPool }
   recv : Val := NONE
   dead : Bool := false      -- construction failed: every later call is reported as AttributeError
 
@@ -258,7 +272,7 @@ def handle (st : St) (line : String) : St × String :=
     match pClass r with
     | some (cs, []) =>
       let cl := st.env.classes ++ [cs]
-      ({ st with env := { classes := cl, prep := prepPool cl } }, "ok")
+      ({ st with env := { classes := cl, prep := prepPool cl, pred := predPool } }, "ok")
     | _ => (st, "bad-class")
   | "new" :: r =>
     match (do let (c, r) ← pNat r; let (kw, _) ← pKw r; pure (c, kw)) with
